@@ -12,13 +12,14 @@ solver model never mentions `Range`; every solver theorem is stated for an arbit
 `LawfulRequired` implementation into one.  `C17_solver_guarantees` spells the clause out: for ANY
 implementation of the five required methods that is lawful with canonical equality, `resolve` returns
 only valid solutions all of whose packages are reachable from the root (C01, C04), reports `NoSolution`
-only when no solution exists (C02), never panics (debug assertions included) and never returns `Failure`
+only when no solution exists, with a checkable derivation tree (C02, C03), never panics (debug assertions included) and never returns `Failure`
 (C05), and over a finite registry returns within a bounded number of calls (C05).
 -/
 import PubgrubProofs.VSetInstances
 import PubgrubProofs.CanonInstances
 import PubgrubProofs.Decides
 import PubgrubProofs.ReachabilityC04
+import PubgrubProofs.TreeSound
 
 set_option linter.unusedSectionVars false
 set_option warn.classDefReducibility false
@@ -73,10 +74,10 @@ theorem C17_solver_guarantees {P M Pr E : Type} [DecidableEq P] [DecidableEq V] 
         ReachableWB (E := E) W debug fuel root rv (s, .solution sel) →
           IsSolution W root rv (fun p => SmallMap.get sel p) ∧
           ∀ p v, SmallMap.get sel p = some v → ReachableFrom W root (fun q => SmallMap.get sel q) p) ∧
-      -- C02
+      -- C02, C03
       (∀ debug fuel (s : SolverState P S V M Pr) tree,
         Reachable (E := E) W debug fuel root rv (s, .noSolution tree) →
-          ¬ ∃ σ : P → Option V, IsSolution W root rv σ) ∧
+          (¬ ∃ σ : P → Option V, IsSolution W root rv σ) ∧ tree.Checkable W root rv) ∧
       -- C05: no panic, no Failure
       (∀ debug fuel (s : SolverState P S V M Pr) site,
         ¬ Reachable (E := E) W debug fuel root rv (s, .fault (.panic site))) ∧
@@ -99,7 +100,10 @@ theorem C17_solver_guarantees {P M Pr E : Type} [DecidableEq P] [DecidableEq V] 
     exact ⟨(solution_valid W hW debug fuel root rv s sel h).1,
       fun p v hp => solution_reachable W hW debug fuel root rv s sel h p v hp⟩
   · intro debug fuel s tree h
-    exact noSolution_sound W hW debug fuel root rv s tree h
+    refine ⟨noSolution_sound W hW debug fuel root rv s tree h, ?_⟩
+    obtain ⟨terminal, inc, hinc, _, hbuild, hinv, _, _⟩ :=
+      noSolution_tree_origin W hW debug fuel root rv s tree h
+    exact (buildDerivationTree_checkable W root rv s.st hinv terminal inc hinc tree hbuild).1
   · intro debug fuel s site
     exact no_panic W hW debug fuel root rv s site
   · intro debug fuel s msg h
